@@ -334,4 +334,325 @@ theorem store_inv {g : Graph} {q : E → Bool} {P : Nat → Prop} {entered : Nat
         subst hx
         exact hinv.compl _ (convTop_var_mem vals x value h2) x rfl hPx
 
+/-! ### One step of the reference evaluation -/
+
+theorem refRule_define (r r' : RState) (out e : E) (eff ni fi : Bool) (h : refRule r (.define out e eff ni fi) = .ok r') :
+    ∃ vals', setCache 64 r.vals out (if eff then resAtom r.trace.length else e) = .ok vals' ∧ r'.vals = vals' ∧
+      r'.trace = r.trace ++ (if eff then [Event.call e] else []) := by
+  simp only [refRule] at h
+  cases eff with
+  | true =>
+    simp only [if_true, bind, Except.bind] at h ⊢
+    cases hs : setCache 64 r.vals out (resAtom r.trace.length) with
+    | error err => simp [hs] at h
+    | ok v =>
+      simp only [hs, pure, Except.pure, Except.ok.injEq] at h
+      subst h
+      exact ⟨v, rfl, rfl, rfl⟩
+  | false =>
+    simp only [Bool.false_eq_true, if_false, bind, Except.bind] at h ⊢
+    cases hs : setCache 64 r.vals out e with
+    | error err => simp [hs] at h
+    | ok v =>
+      simp only [hs, pure, Except.pure, Except.ok.injEq] at h
+      subst h
+      exact ⟨v, rfl, rfl, by simp⟩
+
+theorem refRule_effect (r r' : RState) (s : Stmt) (out e : E) (h : refRule r (.effect s out e) = .ok r') :
+    ∃ vals', setCache 64 r.vals out e = .ok vals' ∧ r'.vals = vals' ∧ r'.trace = r.trace ++ s.event?.toList := by
+  simp only [refRule, bind, Except.bind] at h
+  cases hs : setCache 64 r.vals out e with
+  | error err => simp [hs] at h
+  | ok v =>
+    simp only [hs, pure, Except.pure, Except.ok.injEq] at h
+    subst h
+    exact ⟨v, rfl, rfl, rfl⟩
+
+theorem refRule_import (r r' : RState) (out : Nat) (from_ : Option String) (imp : String) (hint : Option String)
+    (h : refRule r (.import_ out from_ imp hint) = .ok r') :
+    ∃ vals', setCache 64 r.vals (.var out) (modAtom from_ imp) = .ok vals' ∧ r'.vals = vals' ∧ r'.trace = r.trace := by
+  simp only [refRule, bind, Except.bind] at h
+  cases hs : setCache 64 r.vals (.var out) (modAtom from_ imp) with
+  | error err => simp [hs] at h
+  | ok v =>
+    simp only [hs, pure, Except.pure, Except.ok.injEq] at h
+    subst h
+    exact ⟨v, rfl, rfl, rfl⟩
+
+theorem refRule_constant (r r' : RState) (out : Nat) (str : String) (h : refRule r (.constant out str) = .ok r') :
+    ∃ vals', setCache 64 r.vals (.var out) (constAtom (r.nconst + 1)) = .ok vals' ∧ r'.vals = vals' ∧ r'.trace = r.trace := by
+  simp only [refRule, bind, Except.bind] at h
+  cases hs : setCache 64 r.vals (.var out) (constAtom (r.nconst + 1)) with
+  | error err => simp [hs] at h
+  | ok v =>
+    simp only [hs, pure, Except.pure, Except.ok.injEq] at h
+    subst h
+    exact ⟨v, rfl, rfl, rfl⟩
+
+/-- The call application `j` whose function operand is the `P` tracer `y`. -/
+def PCall (g : Graph) (P : Nat → Prop) (v : Visit) : Prop :=
+  ∃ j y args kwargs deps out, v = .app j ∧ g.apps[j]? = some (.call (.var y) args kwargs deps out) ∧ P y
+
+/-- What one step adds to the trace. -/
+def StepEvs (g : Graph) (q : E → Bool) (P : Nat → Prop) (v : Visit) (evs : List Event) : Prop :=
+  (∀ ev ∈ evs, trackedCall q ev = true → PCall g P v) ∧
+  (∀ j y args kwargs deps out, v = .app j → g.apps[j]? = some (.call (.var y) args kwargs deps out) → P y →
+    isAllowInline g (.var y) = false →
+    ∃ f as ks, evs = [.call (E.mk .call (f :: as ++ ks))] ∧ q f = true ∧ as.length = args.length ∧
+      ks.map kwName = kwargs.map (fun kv => some kv.1))
+
+theorem stepEvs_nil (g : Graph) (q : E → Bool) (P : Nat → Prop) (v : Visit)
+    (hnc : ∀ j y args kwargs deps out, v = .app j → g.apps[j]? = some (.call (.var y) args kwargs deps out) →
+      isAllowInline g (.var y) = false → False) : StepEvs g q P v [] :=
+  ⟨by simp, fun j y args kwargs deps out hv ha _ hal => (hnc j y args kwargs deps out hv ha hal).elim⟩
+
+theorem stepEvs_untracked (g : Graph) (q : E → Bool) (P : Nat → Prop) (v : Visit) (evs : List Event)
+    (hu : ∀ ev ∈ evs, trackedCall q ev = false)
+    (hnc : ∀ j y args kwargs deps out, v = .app j → g.apps[j]? = some (.call (.var y) args kwargs deps out) →
+      isAllowInline g (.var y) = false → False) : StepEvs g q P v evs :=
+  ⟨fun ev hev ht => (by rw [hu ev hev] at ht; cases ht),
+   fun j y args kwargs deps out hv ha _ hal => (hnc j y args kwargs deps out hv ha hal).elim⟩
+
+theorem atExpr_form (cache : List (E × E)) (obj key e : E) (h : atExpr cache obj key = .ok e) : ∃ l, e = E.mk .index l := by
+  simp only [atExpr, bind, Except.bind] at h
+  cases h1 : convTop cache obj with
+  | error err => simp [h1] at h
+  | ok o =>
+    simp only [h1] at h
+    split at h
+    · simp at h
+    · simp only [pure, Except.pure, Except.ok.injEq] at h
+      exact ⟨_, h.symm⟩
+
+theorem trackedCall_mk (q : E → Bool) (f : E) (rest : List E) : trackedCall q (.call (E.mk .call (f :: rest))) = q f := by
+  simp [trackedCall, callParts_mk]
+
+/-- **One application step**: the memo invariant is kept, and the only tracked call event a step can add is the call of a
+`P` tracer — which it does add when the application is such a call. -/
+theorem refVisit_app {g : Graph} {q : E → Bool} {P : Nat → Prop} {entered : Nat → Prop} (hq : QOK q) (T : Track g q P entered)
+    (up : Bool) (r r' : RState) (j : Nat) (h : refVisit g up r (.app j) = .ok r') (hinv : MemoInv q P r.vals) :
+    MemoInv q P r'.vals ∧ ∃ evs, r'.trace = r.trace ++ evs ∧ StepEvs g q P (.app j) evs := by
+  simp only [refVisit] at h
+  cases ha : g.apps[j]? with
+  | none => simp [ha, throw, throwThe, MonadExceptOf.throw] at h
+  | some a =>
+  simp only [ha, bind, Except.bind] at h
+  cases hr : ruleOf g up r.vals a with
+  | error err => simp [hr] at h
+  | ok rule =>
+  simp only [hr] at h
+  -- an application that is not a call of a tracer adds no tracked call
+  have notCall : (∀ fn args kwargs deps out, a ≠ .call fn args kwargs deps out) →
+      ∀ j' y args kwargs deps out, Visit.app j = Visit.app j' → g.apps[j']? = some (.call (.var y) args kwargs deps out) →
+        isAllowInline g (.var y) = false → False := by
+    intro hne j' y args kwargs deps out hv ha' _
+    cases hv
+    rw [ha] at ha'
+    exact hne _ _ _ _ _ (Option.some.inj ha')
+  cases a with
+  | call fn args kwargs deps out =>
+    simp only [ruleOf, bind, Except.bind] at hr
+    cases hf : convTop r.vals fn with
+    | error err => simp [hf] at hr
+    | ok f =>
+    simp only [hf] at hr
+    cases has : args.mapM (convTop r.vals) with
+    | error err => simp [has] at hr
+    | ok as =>
+    simp only [has] at hr
+    cases hks : convKw r.vals kwargs with
+    | error err => simp [hks] at hr
+    | ok ks =>
+    simp only [hks, pure, Except.pure, Except.ok.injEq] at hr
+    subst hr
+    obtain ⟨vals', hset, hv, htr⟩ := refRule_define r r' _ _ _ _ _ h
+    cases hal : isAllowInline g fn with
+    | true =>
+      simp only [hal, Bool.not_true, Bool.false_eq_true, if_false] at hset htr
+      refine ⟨?_, [], by simpa using htr, stepEvs_nil g q P _ ?_⟩
+      · rw [hv]
+        exact store_inv hq T j _ ha r.vals vals' _ hset hinv
+          (Or.inl ⟨hq.not_mk _ _ (by intro nm; simp), rfl, rfl⟩)
+      · intro j' y args' kwargs' deps' out' hv' ha' hal'
+        cases hv'
+        rw [ha] at ha'
+        simp only [Option.some.injEq, App.call.injEq] at ha'
+        rw [ha'.1, hal'] at hal
+        cases hal
+    | false =>
+      simp only [hal, Bool.not_false, if_true] at hset htr
+      refine ⟨?_, [.call (E.mk .call (f :: as ++ ks))], htr, ?_, ?_⟩
+      · rw [hv]
+        exact store_inv hq T j _ ha r.vals vals' _ hset hinv (Or.inl ⟨hq.res _, rfl, rfl⟩)
+      · intro ev hev ht
+        simp only [List.mem_singleton] at hev
+        subst hev
+        rw [List.cons_append, trackedCall_mk] at ht
+        obtain ⟨y, rfl, hmem⟩ := convTop_tracked hq r.vals hinv.sound fn f hf ht
+        obtain ⟨y', hy', hPy⟩ := hinv.sound _ hmem ht
+        simp only [E.var.injEq] at hy'
+        subst hy'
+        exact ⟨j, y, args, kwargs, deps, out, rfl, ha, hPy⟩
+      · intro j' y args' kwargs' deps' out' hv' ha' hPy _
+        cases hv'
+        rw [ha] at ha'
+        simp only [Option.some.injEq, App.call.injEq] at ha'
+        obtain ⟨rfl, rfl, rfl, rfl, rfl⟩ := ha'
+        refine ⟨f, as, ks, rfl, ?_, mapM_ok_length _ _ _ has, convKw_names _ _ _ hks⟩
+        exact hinv.compl _ (convTop_var_mem r.vals y f hf) y rfl hPy
+  | callInplace xs fn args kwargs deps out =>
+    simp only [ruleOf, bind, Except.bind] at hr
+    cases hx : convTop r.vals xs with
+    | error err => simp [hx] at hr
+    | ok x =>
+    simp only [hx] at hr
+    cases hf : convTop r.vals fn with
+    | error err => simp [hf] at hr
+    | ok f =>
+    simp only [hf] at hr
+    cases has : args.mapM (convTop r.vals) with
+    | error err => simp [has] at hr
+    | ok as =>
+    simp only [has] at hr
+    cases hks : convKw r.vals kwargs with
+    | error err => simp [hks] at hr
+    | ok ks =>
+    simp only [hks, pure, Except.pure, Except.ok.injEq] at hr
+    subst hr
+    obtain ⟨vals', hset, hv, htr⟩ := refRule_effect r r' _ _ _ h
+    refine ⟨?_, _, htr, stepEvs_untracked g q P _ _ ?_ (notCall (by intro _ _ _ _ _ hc; cases hc))⟩
+    · rw [hv]
+      exact store_inv hq T j _ ha r.vals vals' _ hset hinv (Or.inr (Or.inr ⟨xs, rfl, hx⟩))
+    · intro ev hev
+      simp only [Stmt.event?, Option.toList, List.mem_singleton] at hev
+      subst hev
+      rfl
+  | getattr obj key out =>
+    simp only [ruleOf, bind, Except.bind] at hr
+    cases ho : convTop r.vals obj with
+    | error err => simp [ho] at hr
+    | ok o =>
+    simp only [ho, pure, Except.pure, Except.ok.injEq] at hr
+    subst hr
+    obtain ⟨vals', hset, hv, htr⟩ := refRule_define r r' _ _ _ _ _ h
+    simp only [Bool.false_eq_true, if_false] at hset htr
+    refine ⟨?_, [], by simpa using htr, stepEvs_nil g q P _ (notCall (by intro _ _ _ _ _ hc; cases hc))⟩
+    rw [hv]
+    exact store_inv hq T j _ ha r.vals vals' _ hset hinv (Or.inl ⟨hq.not_mk _ _ (by intro nm; simp), rfl, rfl⟩)
+  | getitem obj key out =>
+    simp only [ruleOf, bind, Except.bind] at hr
+    cases he : atExpr r.vals obj key with
+    | error err => simp [he] at hr
+    | ok e =>
+    simp only [he, pure, Except.pure, Except.ok.injEq] at hr
+    subst hr
+    obtain ⟨l, rfl⟩ := atExpr_form _ _ _ _ he
+    obtain ⟨vals', hset, hv, htr⟩ := refRule_define r r' _ _ _ _ _ h
+    simp only [Bool.false_eq_true, if_false] at hset htr
+    refine ⟨?_, [], by simpa using htr, stepEvs_nil g q P _ (notCall (by intro _ _ _ _ _ hc; cases hc))⟩
+    rw [hv]
+    exact store_inv hq T j _ ha r.vals vals' _ hset hinv (Or.inl ⟨hq.not_mk _ _ (by intro nm; simp), rfl, rfl⟩)
+  | updateitem obj key value op out =>
+    simp only [ruleOf, bind, Except.bind] at hr
+    cases he : atExpr r.vals obj key with
+    | error err => simp [he] at hr
+    | ok e =>
+    simp only [he] at hr
+    cases hvv : convTop r.vals value with
+    | error err => simp [hvv] at hr
+    | ok vv =>
+    simp only [hvv] at hr
+    cases ho : convTop r.vals obj with
+    | error err => simp [ho] at hr
+    | ok o =>
+    simp only [ho, pure, Except.pure, Except.ok.injEq] at hr
+    subst hr
+    obtain ⟨vals', hset, hv, htr⟩ := refRule_effect r r' _ _ _ h
+    refine ⟨?_, _, htr, stepEvs_untracked g q P _ _ ?_ (notCall (by intro _ _ _ _ _ hc; cases hc))⟩
+    · rw [hv]
+      exact store_inv hq T j _ ha r.vals vals' _ hset hinv (Or.inr (Or.inr ⟨obj, rfl, ho⟩))
+    · intro ev hev
+      simp only [Stmt.event?, Option.toList, List.mem_singleton] at hev
+      subst hev
+      rfl
+  | import_ imp from_ as_ out =>
+    simp only [ruleOf, pure, Except.pure, Except.ok.injEq] at hr
+    subst hr
+    obtain ⟨vals', hset, hv, htr⟩ := refRule_import r r' _ _ _ _ h
+    refine ⟨?_, [], by simpa using htr, stepEvs_nil g q P _ (notCall (by intro _ _ _ _ _ hc; cases hc))⟩
+    rw [hv]
+    exact store_inv hq T j _ ha r.vals vals' _ hset hinv (Or.inl ⟨hq.mod _ _, rfl, rfl⟩)
+  | operator op operands out =>
+    simp only [ruleOf, bind, Except.bind] at hr
+    cases hos : operands.mapM (convTop r.vals) with
+    | error err => simp [hos] at hr
+    | ok os =>
+    simp only [hos] at hr
+    have fin : ∀ e : E, (∀ nm, ∀ a', e ≠ .node (.atom nm) a') → (∃ tag l, e = E.mk tag l ∧ ∀ nm, tag ≠ .atom nm) →
+        refRule r (.define (.var out) e false false false) = .ok r' →
+        MemoInv q P r'.vals ∧ ∃ evs, r'.trace = r.trace ++ evs ∧ StepEvs g q P (.app j) evs := by
+      intro e _ ⟨tag, l, he, htag⟩ h'
+      obtain ⟨vals', hset, hv, htr⟩ := refRule_define r r' _ _ _ _ _ h'
+      simp only [Bool.false_eq_true, if_false] at hset htr
+      refine ⟨?_, [], by simpa using htr, stepEvs_nil g q P _ (notCall (by intro _ _ _ _ _ hc; cases hc))⟩
+      rw [hv]
+      exact store_inv hq T j _ ha r.vals vals' _ hset hinv (Or.inl ⟨by rw [he]; exact hq.not_mk _ _ htag, rfl, rfl⟩)
+    match os, hr with
+    | [x], hr =>
+      simp only [pure, Except.pure, Except.ok.injEq] at hr
+      subst hr
+      exact fin _ (by intro nm a'; cases up <;> simp [E.mk]) ⟨_, _, rfl, by intro nm; cases up <;> simp⟩ h
+    | [x, y], hr =>
+      simp only [pure, Except.pure, Except.ok.injEq] at hr
+      subst hr
+      exact fin _ (by intro nm a'; simp [E.mk]) ⟨_, _, rfl, by intro nm; simp⟩ h
+    | [], hr => simp [throw, throwThe, MonadExceptOf.throw] at hr
+    | _ :: _ :: _ :: _, hr => simp [throw, throwThe, MonadExceptOf.throw] at hr
+  | builtin name out =>
+    simp only [ruleOf, pure, Except.pure, Except.ok.injEq] at hr
+    subst hr
+    obtain ⟨vals', hset, hv, htr⟩ := refRule_define r r' _ _ _ _ _ h
+    simp only [Bool.false_eq_true, if_false] at hset htr
+    refine ⟨?_, [], by simpa using htr, stepEvs_nil g q P _ (notCall (by intro _ _ _ _ _ hc; cases hc))⟩
+    rw [hv]
+    exact store_inv hq T j _ ha r.vals vals' _ hset hinv (Or.inl ⟨hq.not_lit _, rfl, rfl⟩)
+  | assert_ xs cond msg out =>
+    simp only [ruleOf, bind, Except.bind] at hr
+    cases hx : convTop r.vals xs with
+    | error err => simp [hx] at hr
+    | ok x =>
+    simp only [hx] at hr
+    cases hcn : convTop r.vals cond with
+    | error err => simp [hcn] at hr
+    | ok cnd =>
+    simp only [hcn, pure, Except.pure, Except.ok.injEq] at hr
+    subst hr
+    obtain ⟨vals', hset, hv, htr⟩ := refRule_effect r r' _ _ _ h
+    refine ⟨?_, _, htr, stepEvs_untracked g q P _ _ ?_ (notCall (by intro _ _ _ _ _ hc; cases hc))⟩
+    · rw [hv]
+      exact store_inv hq T j _ ha r.vals vals' _ hset hinv (Or.inr (Or.inr ⟨xs, rfl, hx⟩))
+    · intro ev hev
+      simp only [Stmt.event?, Option.toList, List.mem_singleton] at hev
+      subst hev
+      rfl
+  | constant str out =>
+    simp only [ruleOf, pure, Except.pure, Except.ok.injEq] at hr
+    subst hr
+    obtain ⟨vals', hset, hv, htr⟩ := refRule_constant r r' _ _ h
+    refine ⟨?_, [], by simpa using htr, stepEvs_nil g q P _ (notCall (by intro _ _ _ _ _ hc; cases hc))⟩
+    rw [hv]
+    exact store_inv hq T j _ ha r.vals vals' _ hset hinv (Or.inr (Or.inl ⟨rfl, _, rfl⟩))
+  | cast input out =>
+    simp only [ruleOf, bind, Except.bind] at hr
+    cases hx : convTop r.vals input with
+    | error err => simp [hx] at hr
+    | ok x =>
+    simp only [hx, pure, Except.pure, Except.ok.injEq] at hr
+    subst hr
+    obtain ⟨vals', hset, hv, htr⟩ := refRule_define r r' _ _ _ _ _ h
+    simp only [Bool.false_eq_true, if_false] at hset htr
+    refine ⟨?_, [], by simpa using htr, stepEvs_nil g q P _ (notCall (by intro _ _ _ _ _ hc; cases hc))⟩
+    rw [hv]
+    exact store_inv hq T j _ ha r.vals vals' _ hset hinv (Or.inr (Or.inr ⟨input, rfl, hx⟩))
+
 end Einx.Exec
